@@ -284,6 +284,50 @@ def service_block() -> Tuple[List[ast.stmt], List[ast.stmt], ast.FunctionDef]:
     return loop.body[:idx[0] + 1], loop.body[idx[0] + 1:], fn
 
 
+def duration_writers() -> List[str]:
+    """every place in the package (notebooks excluded) that WRITES `restart_duration` / `install_duration`: class-level field
+    defaults and overrides, attribute assignments, `setattr` with such a name, constructor keywords"""
+    from harness.lib.core import SRC
+    names = ("restart_duration", "install_duration")
+    out: List[str] = []
+    _, tail, _ = service_block()
+    covered = [(st.lineno, st.end_lineno) for st in tail]   # the translated block: its writes are inside the proved translation
+    for f in sorted(SRC.rglob("*.py")):
+        rel = f.relative_to(SRC).as_posix()
+        if "notebooks" in rel or "_package_data" in rel:
+            continue
+        text = f.read_text()
+        if not any(n in text for n in names):
+            continue
+        tree = ast.parse(text)
+        scopes: Dict[int, str] = {}
+        for top in ast.walk(tree):
+            if isinstance(top, (ast.ClassDef, ast.FunctionDef)):
+                for sub in ast.walk(top):
+                    if sub is not top:
+                        scopes[id(sub)] = top.name if id(sub) not in scopes or isinstance(top, ast.FunctionDef) else scopes[id(sub)]
+        for n in ast.walk(tree):
+            if rel == GAME and hasattr(n, "lineno") and any(a <= n.lineno <= b for a, b in covered):
+                continue
+            tgts = []
+            if isinstance(n, ast.Assign):
+                tgts = n.targets
+            elif isinstance(n, (ast.AnnAssign, ast.AugAssign)):
+                tgts = [n.target]
+            for t in tgts:
+                nm = t.id if isinstance(t, ast.Name) else t.attr if isinstance(t, ast.Attribute) else None
+                if nm in names:
+                    out.append(f"{rel}:{scopes.get(id(n), '<module>')}:{ast.unparse(t)}")
+            if isinstance(n, ast.Call):
+                if ast.unparse(n.func) in ("setattr", "object.__setattr__") and any(
+                        isinstance(c, ast.Constant) and isinstance(c.value, str) and any(k in c.value for k in names) for a in n.args for c in ast.walk(a)):
+                    out.append(f"{rel}:{scopes.get(id(n), '<module>')}:setattr")
+                for kw in n.keywords:
+                    if kw.arg in names:
+                        out.append(f"{rel}:{scopes.get(id(n), '<module>')}:keyword {kw.arg}")
+    return sorted(out)
+
+
 def emit() -> str:
     head, tail, fn = service_block()
     counter = [0]
@@ -331,6 +375,8 @@ def appWrites : List String := {strs(aw)}
 def appCalls : List String := {strs(ac)}
 /-- mentions of `restart_duration` / `install_duration` in `from_config` outside the translated block -/
 def durationMentionsOutside : Nat := {outside}
+/-- every writer of `restart_duration` / `install_duration` in the package: `file:scope:target` -/
+def durationWriters : List String := {strs(duration_writers())}
 
 end Primaite.Gen.SoftwareLoader
 """
